@@ -932,8 +932,9 @@ pub fn build_blocks(ctx: &Ctx) -> Vec<Block> {
             if alpha.is_empty() {
                 continue;
             }
+            let ndev = p.iter().filter(|x| **x != 0).count();
             for rows in 0..=max_rows {
-                if rows > 2 && alpha.len() > 12 {
+                if rows > 2 && (alpha.len() > 12 || ndev > 2) {
                     continue;
                 }
                 blocks.push(Block { family: "typed-1col", opts: o.clone(), types: vec![dt.clone()], rows, alpha: vec![alpha.clone()], mode: Mode::Product });
@@ -951,7 +952,7 @@ pub fn build_blocks(ctx: &Ctx) -> Vec<Block> {
                     let a_first = if *t1 == DataType::Utf8 { first_str.clone() } else { calpha[i].clone() };
                     let alpha = vec![a_first, calpha[j].clone(), calpha[k].clone()];
                     let n = alpha.iter().map(|a| a.len()).max().unwrap() as u64;
-                    blocks.push(Block { family: "mixed-3col", opts: o.clone(), types: vec![t1.clone(), t2.clone(), t3.clone()], rows: 3, alpha, mode: Mode::Rotation(ctx.pick(n.min(6), n)) });
+                    blocks.push(Block { family: "mixed-3col", opts: o.clone(), types: vec![t1.clone(), t2.clone(), t3.clone()], rows: 3, alpha, mode: Mode::Rotation(ctx.pick(n.min(6), n.min(10))) });
                 }
             }
         }
